@@ -516,6 +516,21 @@ def evaluate(case, out):
             out.nontrivial = len(set(wants.values())) > 1
         else:
             for key, a in con.assertions.items():
+                if case["N"] % 3 == 1:
+                    # an earlier estimate on the same assertion with the same assumed rates, made when the margin (comparison)
+                    # or the reported tally (polling) was still another: the estimate is for the values now in force
+                    keep_m, keep_u, keep_t = a.margin, a.test.u, con.tally
+                    try:
+                        if case["audit_type"] == "POLLING" and con.tally:
+                            con.tally = dict(con.tally)
+                            con.tally[a.loser] = 0
+                        else:
+                            a.margin = keep_m / 2
+                        a.find_sample_size(rate_1=case["rate_1"], rate_2=case["rate_2"])
+                    except Exception:  # noqa  (nothing is claimed about the provisional values)
+                        pass
+                    a.margin, a.test.u, con.tally = keep_m, keep_u, keep_t
+                    out.cls("after-an-earlier-estimate-under-another-margin-or-tally")
                 got = a.find_sample_size(rate_1=case["rate_1"], rate_2=case["rate_2"])
                 out.expect(got == wants[key] and a.sample_size == got, f"{mode}-estimate!=first-crossing-on-assumed-data",
                            lambda: {"assertion": key, "got": got, "want": wants[key], "margin": a.margin})
